@@ -269,13 +269,14 @@ Bias(k, S, P(_)) == IF SampleK = 0 THEN S ELSE Samp(k, S) \cup Samp(2, {x \in S 
 
 Conds(N, Bc) ==
   {<<"b", cmp, C(c), K(1)>> : cmp \in {">", "=="}, c \in N} \cup {C(c) : c \in Bc}
+BasicArith == {"+", "-", "*"}      \* the multi-step alphabets stay within the integers
 ArithExprs(N, Bc) ==
   IF Level = 1
     THEN {<<"b", "+", C(c), K(1)>> : c \in N}
          \cup {<<"b", "-", C(p[1]), C(p[2])>> : p \in Pairs(N)}
          \cup {<<"b", "coalesce", C(c), K(0)>> : c \in N}
-    ELSE {<<"b", op, C(c), K(1)>> : op \in ArithOps, c \in N}
-         \cup {<<"b", op, C(p[1]), C(p[2])>> : op \in ArithOps \cup PickOps, p \in Pairs(N)}
+    ELSE {<<"b", op, C(c), K(1)>> : op \in BasicArith, c \in N}
+         \cup {<<"b", op, C(p[1]), C(p[2])>> : op \in BasicArith \cup PickOps, p \in Pairs(N)}
          \cup {<<"u", op, C(c)>> : op \in {"neg", "abs", "sign"}, c \in N}
          \cup {<<"b", "coalesce", C(c), K(0)>> : c \in N}
          \cup {<<"t", op, cnd, C(c), K(2)>> : op \in {"if_else", "where"}, cnd \in Conds(N, Bc), c \in N}
